@@ -47,3 +47,44 @@ def declare(reg, eng):
     reg.contract("getqualattr", params=["module", "qualname"], returns="EnumClass", modifies=[], raises={"Exception": {"when": []}})
     reg.contract("EnumClass.__getitem__", params=["self", "name"], modifies=[], raises={"KeyError": {"when": []}})
     reg.contract("SerializedPath", params=["path", "is_folder"], fresh="SerializedPath", returns="SerializedPath", modifies=[])
+
+    # ------------------------------------------------------------ ConfigInformation.fromParameters (C13): the pre-task / init-task part
+    # of loading a parameter file: every pre-task id of the file is collected once (first occurrence, file order), each
+    # collected task is executed exactly once, init tasks of the last definition are executed after all pre-tasks, in order.
+    # (The object table itself - one object per definition, wiring, __post_init__ - is built by load_objects: bounded only.)
+    eng.load("ConfigInformation.fromParameters", "core/objects.py")
+    reg.klass("LoadedObject", [], {})       # what load_objects puts in its table: a configuration or a runtime instance
+    reg.contract("ConfigInformation.load_objects", params=["definitions", "as_instance", "data_loader", "discard_id"],
+                 defaults={"as_instance": "True", "data_loader": "None", "discard_id": "False"},
+                 returns="dict[any,LoadedObject]", fresh="dict", modifies=[], effect="load_objects", raises={"Exception": {"when": [], "modifies": []}})
+    reg.contract("LoadedObject.execute", params=["self"], modifies=[], effect="execute", raises={"Exception": {"when": [], "modifies": []}})
+    SEEN0 = "at_iteration_start(member(pre_task_id, completed_pretasks))"
+    reg.contract("ConfigInformation.fromParameters", params=["definitions", "as_instance", "data_loader", "discard_id", "return_tasks"],
+                 defaults={"as_instance": "True", "data_loader": "None", "discard_id": "False", "return_tasks": "False"},
+                 types={"definitions": "list[dict]", "as_instance": "bool", "return_tasks": "bool"}, no_replay=True,
+                 # input format (what __get_objects__ writes): the task lists of a definition are lists
+                 requires=["length(definitions) >= 1",
+                           "forall(k, 0, length(definitions), implies(haskey(at(definitions, k), 'pre-tasks'), isclass(lookup(at(definitions, k), 'pre-tasks'), list)))",
+                           "implies(haskey(at(definitions, length(definitions) - 1), 'init-tasks'), isclass(lookup(at(definitions, length(definitions) - 1), 'init-tasks'), list))"],
+                 ensures=[("C13", "implies(as_instance, reached_loop('pre_task') and reached_loop('init_task') and effect_before('loop:pre_task', 'loop:init_task'))"),
+                          ("C13", "effect_count('load_objects') == 1")],
+                 raises={"Exception": {"when": []}, "KeyError": {"when": []}, "NameError": {"when": [], "ensures": ["not as_instance"]},
+                         "UnboundLocalError": {"when": [], "ensures": ["not as_instance"]}},
+                 modifies=[],
+                 loops={
+                     # an id already seen is skipped; a new id is recorded and its object appended - once
+                     "pre_task_id": {"no_break": True, "body_post": [
+                         ("C13", "member(pre_task_id, completed_pretasks)"),
+                         ("C13", f"implies({SEEN0}, length(pre_tasks) == at_iteration_start(length(pre_tasks)))"),
+                         ("C13", f"implies(not {SEEN0}, length(pre_tasks) == at_iteration_start(length(pre_tasks)) + 1 "
+                                 "and at(pre_tasks, length(pre_tasks) - 1) is lookup(objects, pre_task_id))")]},
+                     "definition": {"no_break": True, "body_post": [("C13", "reached_loop('pre_task_id')")]},
+                     # each collected pre-task / init task is executed exactly once, the init tasks after the pre-task loop
+                     "pre_task": {"no_break": True, "body_post": [("C13", "effect_count('execute') == 1 and effect_arg('execute', 0) is pre_task"),
+]},
+                     "init_task": {"no_break": True, "body_post": [("C13", "effect_count('execute') == 1 and effect_arg('execute', 0) is init_task"),
+]},
+                     "init_task_id": {"no_break": True, "body_post": [
+                         ("C13", "length(init_tasks) == at_iteration_start(length(init_tasks)) + 1 and at(init_tasks, length(init_tasks) - 1) is lookup(objects, init_task_id)")]},
+                 })
+    reg.contracts["ConfigInformation.fromParameters"]["locals"] = {"objects": "dict[any,LoadedObject]", "pre_tasks": "list[LoadedObject]", "init_tasks": "list[LoadedObject]", "completed_pretasks": "set"}
